@@ -532,7 +532,7 @@ pub fn run(ctx: &Ctx) -> Outcome {
         let git = matches!(kind, Kind::GitLocal | Kind::GitRemote | Kind::GitRemoteEarlyClones);
         // budgets are in calls: git is ~50 ms per write
         let (cases, calls) = match (git, ctx.tier) {
-            (true, crate::report::Tier::Quick) => (8, 40),
+            (true, crate::report::Tier::Quick) => (5, 40),
             (true, _) => (120, 120),
             (false, crate::report::Tier::Quick) => (40, 60),
             (false, _) => (1500, 120),
